@@ -104,6 +104,62 @@ def register(reg):
                 eng.check(f"{name}#ensures.support_is_exactly_the_enabled_items_in_order", len(keys) == len(enabled) and all(a is subs[k] for a, k in zip(keys, enabled)))
                 eng.check(f"{name}#ensures.weights_are_the_given_weights_else_1", weights is not None and len(weights) == len(enabled) and sv_and(*[compare("==", w, ws[k]) for w, k in zip(weights, enabled)]))
 
+    def replay_pick(inputs, clause):
+        """The real nested function, reached through the real Invocable._invokeSubBehavior(schedule="choose") with stub
+        sub-behaviors; every enabledness pattern of 3 items, dict form (distinct weights) and list form."""
+        import itertools
+
+        from scenic.core.distributions import Options
+        from scenic.core.dynamics.invocables import Invocable
+        from scenic.core.simulators import RejectSimulationException
+
+        class Sub:
+            def __init__(self, k, enabled):
+                self.k, self.enabled, self.asked = k, enabled, []
+
+            def _isEnabledForAgent(self, agent):
+                self.asked.append(agent)
+                return self.enabled
+
+            def __repr__(self):
+                return f"item{self.k}({'enabled' if self.enabled else 'disabled'})"
+
+        class Host:
+            def _invokeInner(self, agent, subs):
+                self.got = subs
+                return
+                yield
+
+        agent = object()
+        given = [2.0, 3.0, 5.0]
+        for dict_form in (True, False):
+            for flags in itertools.product((False, True), repeat=3):
+                subs = [Sub(k, f) for k, f in enumerate(flags)]
+                opts = dict(zip(subs, given)) if dict_form else list(subs)
+                host = Host()
+                desc = f"do choose {opts}" if dict_form else f"do choose {', '.join(map(repr, subs))}"
+                try:
+                    for _ in Invocable._invokeSubBehavior(host, agent, (opts,) if dict_form else tuple(opts), schedule="choose"):
+                        pass
+                except RejectSimulationException:
+                    if any(flags):
+                        return f"{desc}: deadlock reported although an item is enabled"
+                    continue
+                if not any(flags):
+                    return f"{desc}: no deadlock reported although nothing is enabled"
+                (choice,) = host.got
+                want = {sub: (w if dict_form else 1) for sub, w, f in zip(subs, given, flags) if f}
+                if len(want) == 1:
+                    if choice is not list(want)[0]:
+                        return f"{desc}: the single enabled item is not returned directly (got {choice!r})"
+                    continue
+                if not isinstance(choice, Options):
+                    return f"{desc}: expected a discrete distribution over the enabled items, got {choice!r}"
+                got = dict(choice.optWeights) if choice.optWeights is not None else {o: 1 for o in choice.options}
+                if list(got) != list(want) or any(abs(float(got[k]) - float(want[k])) > 1e-12 for k in want):
+                    return f"{desc}: the choice is drawn with weights {got}, expected {want} (each enabled item keeps its own weight)"
+        return None
+
     reg.add(
         C.Contract(
             f"{M}:Invocable._invokeSubBehavior.pickEnabledInvocable",
@@ -111,6 +167,7 @@ def register(reg):
             setup=setup_pick,
             closure_env=closure_pick,
             post=post_pick,
+            replay=replay_pick,
             raises=[C.Raises("RejectSimulationException", mode="may")],
             bounded=True,
             note="bounded: 3 listed items (symbolic weights and enabledness)",
